@@ -150,6 +150,12 @@ pub async fn post_text(
     .await
 }
 
+/// Verification hook: exposes the private response parser to the /verif harness.
+#[cfg(qe_verif)]
+pub fn verif_parse_response(raw: &[u8]) -> std::io::Result<HttpResponse> {
+    parse_response(raw)
+}
+
 fn parse_response(raw: &[u8]) -> std::io::Result<HttpResponse> {
     let split = raw
         .windows(4)
